@@ -4,7 +4,7 @@ CONSTANTS
   Sessions = {"s1", "s2"}
   Msgs = {1, 2}
   MaxPers = {0, 1}
-  MaxTok = 8
+  MaxTok = 12
   MaxClock = 5
   TTLs = {0, 1, 2}
   Depth = 25
